@@ -740,3 +740,42 @@ def rf95(run):
                               'rejects or initialises wrongly (a one-element u8 item holding 0 becomes `uint8_t x = "";`)'
                               % (tname, nel, txt[:60], nel, '' if nel == 1 else '[%d]' % nel, '' if nel == 1 else '{', '' if nel == 1 else '}'), line=f.line)
     return n
+
+
+# ---------------------------------------------------------------------------------------------
+# RF112: a long double immediate is not narrowed on its way to the printer
+# ---------------------------------------------------------------------------------------------
+
+def rf112(run, units=None):
+    rule = 'RF112'
+    run.rule(rule, 'printers and writers (all of mir2c; the text and binary writers of mir.c): no value of type long double is converted to '
+                   'double or float (clang FloatingCast, implicit at a call of a helper with a `double` parameter or explicit).  A long '
+                   'double immediate beyond the double range would become infinity — mir2c prints `(1.0L / 0.0L)` for 1.0e+400L — or lose '
+                   'mantissa bits')
+    n = 0
+    if units is None:
+        tu2 = run.tu('mir2c')
+        tu1 = run.tu('mir')
+        writers = tu1.reachable(['MIR_output_op', 'MIR_output_item', 'MIR_output_insn', 'write_op', 'write_item', 'write_insn', 'MIR_write_module_with_func'])
+        sel = [(tu2, g) for g in tu2.func_list if g.file.startswith('/repo/mir2c')] + [(tu1, tu1.funcs[nm]) for nm in sorted(writers)]
+    else:
+        sel = [(tu, g) for tu in units for g in tu.func_list if g.body is not None]
+    for tu, g in sel:
+        if g.body is None:
+            continue
+        run.functions_analysed.add((tu.unit, g.name))
+        n += 1
+        hits = []
+        for x in g.walk():
+            if x['k'] in F.CASTS and x.get('ck') == 'FloatingCast' and x.get('c'):
+                t, s = tu.type(x).s, tu.type(x['c'][0]).s
+                if 'long double' in s and t in ('double', 'float', 'const double', 'const float'):
+                    hits.append((x, t))
+        run.ob(rule, (tu.unit, g.name), not hits)
+        for x, t in hits:
+            run.violation(rule, g, 'long double narrowed to %s' % t, '`%s` (long double) is converted to %s in %s: an immediate outside the %s range is '
+                          'printed as infinity or with fewer digits, so the translation computes with another constant than the module' %
+                          (F.src(x)[:50], t, g.name, t), line=x['l'])
+    if n < 3:
+        raise F.AnalysisBroken('RF112: only %d printer functions found' % n)
+    return n
